@@ -123,6 +123,7 @@ def targets(tier):
         mk_cg("cg8_len3", b"\x11\x22\x33", mlw=3),
         mk_cg("cg16_len5", b"\x01\x02\x03\x04\x05", bpw=2, mlw=3),
         mk_cg("cg32_len11", b"HELLO WORLD", bpw=4, mlw=4),
+        mk_cg("cg32_len6_be", b"\x01\x02\x03\x04\x05\x06", bpw=4, mlw=4, big=True),   # big-endian, partial final word
         mk_ser("ser_n2_dw2", 2, 2, 2),
         mk_ser("ser_n3_dw1", 3, 1, 2),
     ]
@@ -133,7 +134,6 @@ def targets(tier):
             mk_cg("cg8_len4", b"\x81\x42\x24\x18", mlw=3),
             mk_cg("cg8_len5", b"\x01\x02\x03\x04\x05", mlw=4),
             mk_cg("cg16_len4", b"\x01\x02\x03\x04", bpw=2, mlw=3),
-            mk_cg("cg32_len6_be", b"\x01\x02\x03\x04\x05\x06", bpw=4, mlw=4, big=True),
             mk_cg("cg32_len8", b"\x01\x02\x03\x04\x05\x06\x07\x08", bpw=4, mlw=4),
             mk_cg("cg32_len9_v1", b"\x01\x02\x03\x04\x05\x06\x07\x08\x09", bpw=4, vw=1, mlw=4),
             mk_cg("cg8_len3_noml", b"\x11\x22\x33", mlw=None),
